@@ -313,6 +313,30 @@ pub fn run(tier: Tier) -> i32 {
             }
         }
     }
+    // well-typed calls whose mathematical result is not a finite double: whatever the library does about it (an
+    // error -- how it is classified is C12's business -- or a number), it does not hand back a value outside the
+    // declared result type
+    for dd in [json!([1e308, 1e308]), json!([9e307, 9e307, 9e307, -9e307]), json!([-1e308, -1e308]), json!([1.7976931348623157e308, 1e292])] {
+        for e in ["sum(@)", "avg(@)", "sum(@[*])", "[sum(@)]", "abs(sum(@))", "type(sum(@))", "type(avg(@))", "sum([sum(@), `1`])"] {
+            st.states += 1;
+            st.evaluations += 1;
+            st.validated += 1;
+            let out = crate::implx::impl_search(e, &dd);
+            let bad = match &out {
+                crate::implx::Out::Value(v, _) => {
+                    let inner = if e.starts_with('[') { v.get(0).cloned().unwrap_or(Value::Null) } else { v.clone() };
+                    if e.starts_with("type(") { inner != json!("number") } else { !inner.is_number() }
+                }
+                crate::implx::Out::SearchErr(_) => false,
+                _ => true,
+            };
+            if bad {
+                st.violate(Violation { key: "C06/result-type/non-finite".into(), check: "non-finite-results".into(), case: json!({"kind": "call", "expression": e, "document": dd}), expected: "an error or a number (declared result type)".into(), actual: out.brief() });
+            } else {
+                st.outcome("non-finite result: error or number");
+            }
+        }
+    }
     // a runtime on which nothing (or not everything) is registered: every builtin name is unknown there
     {
         let empty = jmespath::Runtime::new();
